@@ -106,8 +106,8 @@ class Backend(object):
         self.notes = {}
 
     # obligations ----------------------------------------------------------
-    def eq(self, label, lhs, rhs):
-        self.obls.append(('eq', label, lhs, rhs))
+    def eq(self, label, lhs, rhs, tol=None):
+        self.obls.append(('eq', label, lhs, rhs, tol))
 
     def holds(self, label, cond):
         self.obls.append(('holds', label, cond, None))
@@ -177,6 +177,10 @@ class SymBackend(Backend):
     def diff(self, v, x):
         return Sym(T.diff(Sym.lift(v).t, x.t))
 
+    def new_rng(self):
+        """Fresh RNG stub state (call at the start of the case)."""
+        return facades.new_rng()
+
 
 class ConcreteBackend(Backend):
     symbolic = False
@@ -236,6 +240,9 @@ class ConcreteBackend(Backend):
 
     def diff(self, v, x):
         raise NotImplementedError('use grad() so that replays can run')
+
+    def new_rng(self):
+        return None
 
 
 # ------------------------------------------------------------------ running
@@ -555,6 +562,8 @@ def _concrete_label_fails(B, label, tol_eq=1e-6, tol_grad=2e-4):
             return (not bool(ob[2]), 'condition false')
         tol = tol_grad if ('grad' in label or 'sens' in label or
                            label.startswith('d')) else tol_eq
+        if len(ob) > 4 and ob[4] is not None:
+            tol = ob[4]
         l, r = ob[2], ob[3]
         if l is UNINIT or r is UNINIT:
             return (True, 'uninit')
@@ -576,7 +585,7 @@ def _violation(res, fn, cfg, opts, solver, p, label, env, detail,
             candidates.append(_fl(m))
     # nearby generic points rescue counter-examples whose abstract atoms
     # were given impossible values by the solver
-    for k in range(3):
+    for k in range(opts.get('replay_candidates', 3)):
         r, m = solver.model(p.conds + _spread(p.conds, k))
         if r == 'sat':
             candidates.append(_fl(m))
@@ -663,6 +672,8 @@ def _diffcheck(res, fn, cfg, opts, solver, p, obls):
     for ob in obls:
         if ob[0] != 'eq' or ob[1] not in conc:
             continue
+        if len(ob) > 4 and ob[4] is not None:
+            continue    # statistical label: the float run measures it
         if 'grad' in ob[1] or 'sens' in ob[1]:
             tol = 5e-4
         else:
